@@ -939,6 +939,320 @@ def roles(chk, rel, func, call, formals, table, const_recv=None, callee=None):
     return agree.check_roles(chk, rel, func, call, formals, table2, None)
 
 
+# ------------------------------------------------------------------ E2-result-in-place (shared by the 1-D / 2-D advection steps)
+# numpy forms whose result is ALWAYS new storage (a `copy=` keyword makes the form "not modelled")
+_RIP_ALWAYS = {"copy": "always a copy", "array": "numpy.array copies by default", "astype": "astype copies by default",
+               "flatten": "always a copy"}
+# forms whose result is the argument itself for some inputs and new storage for the others
+_RIP_SOMETIMES = {
+    "ascontiguousarray": "the argument itself only when it already is a C-contiguous array of the requested dtype, a copy for every "
+                         "other memory layout (transposed or strided view, slice of a block stored in another dimension order, "
+                         "Fortran order) or dtype",
+    "asfortranarray": "the argument itself only when it already is Fortran-contiguous (of the requested dtype), a copy otherwise",
+    "require": "the argument itself only when it already satisfies the requirements, a copy otherwise",
+}
+_RIP_IDENTITY_IF_BARE = ("asarray", "asanyarray")
+
+
+def _rip_copy_kind(v, root):
+    """how the value expression `v` relates to the array named `root`: ("same", None) the array itself; ("always", why) new storage
+    whatever root is; ("sometimes", why) root itself for some memory layouts / dtypes, a copy for the others; (None, None) not one of
+    the modelled forms (a view, an unrelated value, ...)"""
+    if isinstance(v, ast.Name):
+        return ("same", None) if v.id == root else (None, None)
+    if isinstance(v, ast.BinOp):
+        if any(isinstance(x, ast.Name) and x.id == root for x in (v.left, v.right)):
+            return "always", "an arithmetic expression creates a new array"
+        return None, None
+    if not isinstance(v, ast.Call):
+        return None, None
+    fname = v.func.attr if isinstance(v.func, ast.Attribute) else v.func.id if isinstance(v.func, ast.Name) else None
+    if fname is None or any(isinstance(a, ast.Starred) for a in v.args) or any(k.arg is None for k in v.keywords):
+        return None, None
+    recv_is_root = isinstance(v.func, ast.Attribute) and isinstance(v.func.value, ast.Name) and v.func.value.id == root
+    arg_is_root = bool(v.args) and isinstance(v.args[0], ast.Name) and v.args[0].id == root and \
+        (isinstance(v.func, ast.Name) or (isinstance(v.func, ast.Attribute) and src(v.func.value) in ("np", "numpy")))
+    if not (recv_is_root or arg_is_root):
+        return None, None
+    kws = {k.arg: k.value for k in v.keywords}
+    if "copy" in kws:                 # copy=False / copy=None: "only if needed" -> not decided here
+        return None, None
+    extra = len(v.args) - (1 if arg_is_root else 0) + len(kws)
+    if fname in _RIP_IDENTITY_IF_BARE and arg_is_root:
+        if extra == 0:
+            return "same", None
+        return "sometimes", (f"numpy.{fname} with a dtype / order returns the argument itself only when it already has them, a "
+                             "converted copy otherwise")
+    if fname in _RIP_ALWAYS and (recv_is_root or fname in ("array", "copy")):
+        return "always", _RIP_ALWAYS[fname]
+    if fname in _RIP_SOMETIMES and arg_is_root:
+        return "sometimes", _RIP_SOMETIMES[fname]
+    return None, None
+
+
+def _rip_stores_of(fn, name):
+    """statements of `fn` that (re)bind the local name `name` -> [(statement, value node or None when the form is not a plain binding)]"""
+    out = []
+    has = lambda t: any(isinstance(x, ast.Name) and x.id == name for x in ast.walk(t))
+    for st in ast.walk(fn):
+        if isinstance(st, ast.Assign):
+            for t in st.targets:
+                if isinstance(t, ast.Name) and t.id == name:
+                    out.append((st, st.value))
+                elif isinstance(t, (ast.Tuple, ast.List, ast.Starred)) and has(t):
+                    out.append((st, None))
+        elif isinstance(st, (ast.AugAssign, ast.AnnAssign)) and isinstance(st.target, ast.Name) and st.target.id == name:
+            if isinstance(st, ast.AugAssign) or st.value is not None:
+                out.append((st, st.value if isinstance(st, ast.AnnAssign) else None))
+        elif isinstance(st, ast.NamedExpr) and st.target.id == name:
+            out.append((st, None))
+        elif isinstance(st, (ast.For, ast.comprehension)) and has(st.target):
+            out.append((st, None))
+        elif isinstance(st, ast.With) and any(i.optional_vars is not None and has(i.optional_vars) for i in st.items):
+            out.append((st, None))
+        elif isinstance(st, (ast.FunctionDef, ast.Lambda, ast.ClassDef)) and st is not fn and \
+                (getattr(st, "name", None) == name or (not isinstance(st, ast.ClassDef) and any(
+                    a.arg == name for a in st.args.args + st.args.kwonlyargs + st.args.posonlyargs))):
+            out.append((st, None))
+        elif isinstance(st, (ast.Global, ast.Nonlocal)) and name in st.names:
+            out.append((st, None))
+        elif isinstance(st, (ast.Import, ast.ImportFrom)) and any((a.asname or a.name) == name for a in st.names):
+            out.append((st, None))
+        elif isinstance(st, ast.ExceptHandler) and st.name == name:
+            out.append((st, None))
+        elif isinstance(st, ast.Delete) and any(has(t) for t in st.targets):
+            out.append((st, None))
+    return out
+
+
+def _rip_writes_back(fn, after_line, into, values_of):
+    """a statement after line `after_line` that may copy the array named `values_of` into storage reached through one of the names
+    `into` (`X[...] = <anything mentioning v>`, `np.copyto(X, v)`, any call that receives both)"""
+    for st in ast.walk(fn):
+        if getattr(st, "lineno", 0) <= after_line:
+            continue
+        if isinstance(st, (ast.Assign, ast.AugAssign)):
+            tg = st.targets if isinstance(st, ast.Assign) else [st.target]
+            for t in tg:
+                if isinstance(t, ast.Subscript) and any(isinstance(x, ast.Name) and x.id in into for x in ast.walk(t.value)) \
+                        and any(isinstance(x, ast.Name) and x.id == values_of for x in ast.walk(st.value)):
+                    return st
+        if isinstance(st, ast.Call):
+            names = {x.id for a in list(st.args) + [k.value for k in st.keywords] for x in ast.walk(a) if isinstance(x, ast.Name)}
+            if isinstance(st.func, ast.Attribute):
+                names |= {x.id for x in ast.walk(st.func.value) if isinstance(x, ast.Name)}
+            if names & set(into) and (values_of in names or src(st.func).split(".")[-1] in ("copyto", "put", "place", "putmask")):
+                return st
+    return None
+
+
+def result_in_place(chk, cls, fn, sites, rel, owner, formal="f"):
+    """E2-result-in-place: `step(f, ...)` documents "the result will be stored here" and the grid-level steps rely on it (they hand a
+    view of the distribution's block to step() and drop the reference).  The array bound to the kernel's output parameter must therefore
+    be the very array object the caller passed - or, if step() works on another array, its content must be copied back into the caller's
+    array after the kernel call.  `sites` = [(kernel name, call node, actual bound to the kernel's output parameter)].
+    VIOLATED only when ALL of this is established: (1) the actual of the kernel's output parameter is a local name of step(); (2) every
+    binding of that name is found (each one a plain assignment; tuple / loop / with / walrus / augmented / nested-scope bindings are
+    UNDECIDED); (3) a binding whose value is one of the modelled numpy forms that return new storage for every array (`copy`, `array`,
+    `astype`, arithmetic) or for some memory layouts / dtypes (`ascontiguousarray`, `asarray(.., dtype)`, `require`) of the caller's
+    array stands unconditionally at the top level of step() before the kernel call; (4) no statement after the kernel call stores into
+    (or hands to a call together with the copy) the caller's array; (5) the kernel call is the last use of the copy and step() returns
+    no value.  Anything else that rebinds the name is UNDECIDED."""
+    where = dict(file=rel, func=f"{owner}.{fn.name}")
+    params = [a.arg for a in fn.args.args][1:]
+    site_calls = {id(x) for _k, cc, _a in sites for x in ast.walk(cc)}
+    for kname, c0, a in sites:
+        if a is None:
+            continue
+        if isinstance(a, ast.Subscript) and isinstance(a.value, ast.Name) and all(
+                isinstance(x, (ast.Slice, ast.Constant)) or (isinstance(x, ast.UnaryOp) and isinstance(x.operand, ast.Constant))
+                for x in (a.slice.elts if isinstance(a.slice, ast.Tuple) else [a.slice])):
+            a = a.value                      # basic indexing: a view of the named array
+        what = f"{kname}: {formal} <- {src(a)} is the caller's array"
+        if not isinstance(a, ast.Name):
+            chk.ob("E2-result-in-place", c0, what, None,
+                   f"the output parameter `{formal}` receives the expression `{src(a)}`: whether the kernel writes into the storage of "
+                   "the array handed to step() is not decided", **where)
+            continue
+        nm = a.id
+        stores = _rip_stores_of(fn, nm)
+        if nm in params and not stores:
+            chk.ob("E2-result-in-place", c0, what, True,
+                   f"`{nm}` is the parameter of {fn.name}(), never rebound in it: the kernel writes into the caller's array", **where)
+            continue
+        und = None
+        top = {id(st) for st in fn.body}
+        origin = nm if nm in params else None
+        copies = []
+        for st, v in stores:
+            if v is None or not isinstance(st, ast.Assign) or len(st.targets) != 1:
+                und = f"`{src(st)[:60]}` binds `{nm}` in a way that is not followed"
+                break
+            kind, kw = None, None
+            for p in ([nm] if nm in params else params):
+                kind, kw = _rip_copy_kind(v, p)
+                if kind is not None:
+                    if nm not in params:
+                        if origin not in (None, p):
+                            kind = None
+                        origin = p
+                    break
+            if kind is None:
+                und = (f"`{src(st)[:70]}` binds `{nm}` to a value whose relation to the array handed to {fn.name}() is not one of the "
+                       "modelled forms (a view? another array?)")
+                break
+            if kind == "same":
+                continue
+            if id(st) not in top or st.lineno >= c0.lineno:
+                und = (f"`{src(st)[:70]}` may rebind `{nm}` to a copy, but not unconditionally before the kernel call: which inputs reach "
+                       "it is not decided")
+                break
+            copies.append((st, kind, kw))
+        if und is not None:
+            chk.ob("E2-result-in-place", c0, what, None, und, **where)
+            continue
+        if not copies:
+            if origin is not None:
+                chk.ob("E2-result-in-place", c0, what, True,
+                       f"every binding of `{nm}` in {fn.name}() denotes the array handed in by the caller itself", **where)
+            else:
+                chk.ob("E2-result-in-place", c0, what, None, f"what `{nm}` denotes is not decided", **where)
+            continue
+        st, kind, kw = copies[0]
+        # names through which the caller's array is still reachable after the rebinding: the parameter itself when the copy has a name
+        # of its own, and every name that an earlier plain assignment binds to the parameter
+        into = set() if nm in params else {origin}
+        for x in ast.walk(fn):
+            if isinstance(x, ast.Assign) and isinstance(x.value, ast.Name) and x.value.id == origin and x.lineno < st.lineno:
+                into |= {t.id for t in x.targets if isinstance(t, ast.Name)}
+        back = _rip_writes_back(fn, getattr(c0, "end_lineno", c0.lineno), into, nm) if into else None
+        later_use = [x for x in ast.walk(fn) if isinstance(x, ast.Name) and x.id == nm and isinstance(x.ctx, ast.Load)
+                     and x.lineno > getattr(c0, "end_lineno", c0.lineno) and id(x) not in site_calls]
+        returned = any(isinstance(x, (ast.Return, ast.Yield, ast.YieldFrom)) and x.value is not None for x in ast.walk(fn))
+        if back is not None:
+            chk.ob("E2-result-in-place", c0, what, None,
+                   f"the kernel works on `{src(st)[:60]}` and `{src(back)[:60]}` may copy the result back: not decided", **where)
+            continue
+        if later_use or returned:
+            chk.ob("E2-result-in-place", c0, what, None,
+                   f"the kernel works on `{src(st)[:60]}`, which is used again after the kernel call (or {fn.name}() returns a value): "
+                   "whether the result reaches the caller's array is not decided", **where)
+            continue
+        chk.ob("E2-result-in-place", st, what, False,
+               f"`{src(st)[:80]}` rebinds `{nm}` before the kernel call, and numpy gives back "
+               + ("new storage: " + kw if kind == "always" else kw)
+               + f". The kernel {kname} then writes the advected values into that copy; nothing copies them back into the array the caller "
+               f"handed to {fn.name}() (no store into `{origin}` after the call, the copy is not used again, {fn.name}() returns nothing), so "
+               + ("the caller's array is never updated: the step does not replace f" if kind == "always" else
+                  "for every such argument (e.g. a transposed or strided view, a Fortran-ordered or non-float64 array of the right shape) "
+                  "the caller's array is left untouched: the step does not replace f, while a C-contiguous float64 argument still works"),
+               **where)
+    # the callers of step() inside the class: a temporary that is always a copy is advected and dropped
+    sformals = [a.arg for a in fn.args.args][1:]
+    for m in [st for st in cls.body if isinstance(st, ast.FunctionDef) and st is not fn]:
+        for c in [n for n in ast.walk(m) if isinstance(n, ast.Call) and src(n.func) == f"self.{fn.name}"]:
+            # which actual is the distribution is established by bind_status on the definition of step() (all actuals written out,
+            # complete signature); a binding that is not followed is UNDECIDED, a misfit is not this rule's subject
+            status_, bb, bwhy_ = agree.bind_status(c, sformals, fn)
+            # (a call whose binding is not followed is the subject of the index-space rules of the grid-level step: no verdict here)
+            if bb is None or formal not in bb or not isinstance(bb[formal], ast.Call):
+                continue
+            v = bb[formal]
+            fname = v.func.attr if isinstance(v.func, ast.Attribute) else getattr(v.func, "id", None)
+            kws = {k.arg for k in v.keywords}
+            is_method = isinstance(v.func, ast.Attribute) and src(v.func.value) not in ("np", "numpy")
+            if "copy" not in kws and None not in kws and (
+                    (fname in ("copy", "astype", "flatten") and is_method) or
+                    (fname in ("array", "copy") and not is_method and isinstance(v.func, ast.Attribute) and len(v.args) == 1
+                     and isinstance(v.args[0], (ast.Call, ast.Name, ast.Subscript, ast.Attribute)))):
+                # assumptions: `.copy()` / `.astype(t)` / `np.array(x)` of an array is new storage (numpy semantics); the value is an
+                # argument expression, so no name keeps it after the call
+                chk.ob("E2-result-in-place", c, f"{m.name}: self.{fn.name}({src(v)[:50]}, ...)", False,
+                       f"{m.name} hands `{src(v)[:80]}` to {fn.name}(): a temporary copy ({_RIP_ALWAYS.get(fname)}) is advected and "
+                       "dropped when the call returns, the slice of the distribution it was copied from is never updated",
+                       file=rel, func=f"{owner}.{m.name}")
+
+
+def frozen_collaborator_reads(chk, rel, cls_name, mname, kernels, kmod, collab="self._constants"):
+    """G-state-read-at-call: the per-call method `mname` hands the kernel the CURRENT attributes of the collaborator object kept in
+    `collab` (the reference reads `self._constants.X` in every call).  A callable built once in the constructor with
+    functools.partial that binds `constants.X` / `self._constants.X` freezes the values of the construction: the collaborator is an
+    ordinary mutable object (its class is checked: no __slots__ / frozen dataclass; property setters with side effects exist), so a
+    change made between construction and a later call is seen by the reference and not by the frozen callable.
+    VIOLATED only when ALL of this is established: (1) `self.A = partial(K, ...)` is the only binding of self.A in the class and K is one
+    of the kernels; (2) `mname` calls self.A; (3) an argument bound by the partial is a plain attribute read `P.X` of the constructor
+    parameter P that is stored as `collab` (or of `collab` itself); (4) the call in `mname` does not hand over the same parameter
+    again (a keyword given at the call overrides the partial's); (5) the collaborator's class is an ordinary class (attributes can be
+    re-assigned).  Returns True when a frozen callable was found and judged."""
+    cls = chk.mod(rel).cls(cls_name)
+    table = method_table(chk, rel, cls_name)
+    if "__init__" not in table or mname not in table:
+        return False
+    init, fn = table["__init__"][1], table[mname][1]
+    aliases = {collab}
+    for st in ast.walk(init):
+        if isinstance(st, ast.Assign) and any(src(t) == collab for t in st.targets) and isinstance(st.value, ast.Name) \
+                and st.value.id in [x.arg for x in init.args.args]:
+            aliases.add(st.value.id)
+    judged = False
+    for st in ast.walk(init):
+        if not (isinstance(st, ast.Assign) and len(st.targets) == 1 and isinstance(st.targets[0], ast.Attribute)
+                and src(st.targets[0].value) == "self" and isinstance(st.value, ast.Call)
+                and src(st.value.func) in ("partial", "functools.partial") and st.value.args
+                and isinstance(st.value.args[0], ast.Name) and st.value.args[0].id in kernels):
+            continue
+        attr = src(st.targets[0])
+        pc = st.value
+        calls = [c for c in ast.walk(fn) if isinstance(c, ast.Call) and src(c.func) == attr]
+        if not calls:
+            continue
+        binds = [x for m_ in cls.body if isinstance(m_, ast.FunctionDef) for x in ast.walk(m_)
+                 if isinstance(x, (ast.Assign, ast.AugAssign, ast.AnnAssign))
+                 and any(src(t) == attr for t in (x.targets if isinstance(x, ast.Assign) else [x.target]))]
+        kfn = kmod.func(pc.args[0].id)
+        formals = [x.arg for x in kfn.args.args]
+        what = f"{attr} = partial({pc.args[0].id}, ...) reads the collaborator at construction"
+        where = dict(file=rel, func=f"{cls_name}.__init__")
+        if len(binds) != 1 or any(isinstance(x, ast.Starred) for x in pc.args) or any(k.arg is None for k in pc.keywords):
+            chk.ob("G-state-read-at-call", st, what, None,
+                   f"`{attr}` is bound {len(binds)} times in the class or built with * / ** expansion: which values the call in {mname} sees "
+                   "is not followed", **where)
+            judged = True
+            continue
+        bound = dict(zip(formals, pc.args[1:]))
+        bound.update({k.arg: k.value for k in pc.keywords})
+        again = {k.arg for c in calls for k in c.keywords}
+        frozen = {f_: v for f_, v in bound.items() if isinstance(v, ast.Attribute) and src(v.value) in aliases and f_ not in again}
+        try:
+            ccls = chk.mod(U.CONSTANTS).cls("Constants")
+            ordinary = not any(isinstance(x, ast.Assign) and any(src(t) == "__slots__" for t in x.targets) for x in ccls.body) and \
+                not any("frozen" in src(d) or "NamedTuple" in src(d) for d in list(ccls.decorator_list) + list(ccls.bases))
+        except Exception:          # noqa: BLE001
+            ordinary = None
+        judged = True
+        if not frozen:
+            mentions = any((isinstance(x, ast.Name) and x.id in aliases) or (isinstance(x, ast.Attribute) and src(x) in aliases)
+                           for v in bound.values() for x in ast.walk(v))
+            chk.ob("G-state-read-at-call", st, what, None if mentions else True,
+                   "an argument bound by the partial mentions the collaborator object in a form that is not a plain attribute read: "
+                   "what it freezes is not decided" if mentions else
+                   "the partial binds nothing that is read from the collaborator object (or the call hands the value over again)", **where)
+            continue
+        if not ordinary:
+            chk.ob("G-state-read-at-call", st, what, None,
+                   "whether the collaborator's attributes can change after construction is not established", **where)
+            continue
+        names = ", ".join(f"{f_}={src(v)}" for f_, v in sorted(frozen.items()))
+        chk.ob("G-state-read-at-call", st, what, False,
+               f"`{src(st)[:60]}...` is evaluated once, in the constructor, and binds {names}: the kernel called by {mname}() through "
+               f"`{attr}` receives the values the collaborator had at construction. The reference reads them from `{collab}` in every "
+               f"call of {mname}(); the collaborator is an ordinary mutable object (class Constants: plain attributes, property setters "
+               "that move dependent values such as rp), so after any change made to it between the construction of the operator and a "
+               "later step the boundary fill uses the equilibrium of the stale constants while every other reader of the same object "
+               "uses the current ones", **where)
+    return judged
+
+
 def wrapper_dispatch(chk, mod, wrapper, general):
     """rule E1-dispatch of engine E (agree.check_wrapper_dispatch) in three-valued form.  HOLDS: the wrapper is one if/else on its flag
     parameter, both arms are one call of the general routine with the same arguments except the evaluator arguments, which are the
@@ -1033,7 +1347,9 @@ def wrapper_dispatch(chk, mod, wrapper, general):
 def parallel_gradient(chk):
     """ParallelGradient: tables built in __init__, looked up in parallel_gradient(phi_r, i, der)"""
     env = {"eta_grid": eta_grid_tag(), "layout": layout_param(), "constants": ("constants",), "order": OTHER, "spline": OTHER}
-    attrs, _ = ctor_attrs(chk, U.ADV, "ParallelGradient", env)
+    attrs, a0 = ctor_attrs(chk, U.ADV, "ParallelGradient", env)
+    local_position_decisions(chk, a0, a0.fn if hasattr(a0, "fn") else chk.func(U.ADV, "ParallelGradient.__init__"), U.ADV,
+                             "ParallelGradient.__init__")
     summ, a = summary_of(chk, U.ADV, "ParallelGradient", "parallel_gradient", dict(attrs), Ctx(dist_dims={0}))
     idxp = [p_ for p_ in summ["params"] if isinstance(summ["req"].get(p_), tuple) and summ["req"][p_][0] in ("lidx", "gidx")]
     chk.ob("C-table-roles", chk.func(U.ADV, "ParallelGradient.parallel_gradient"), f"parallel_gradient({', '.join(summ['params'])})",
@@ -1048,7 +1364,9 @@ def parallel_gradient(chk):
 def flux_surface(chk):
     env = {"eta_grid": eta_grid_tag(), "layout": layout_param(), "constants": ("constants",), "dt": OTHER,
            "splines": OTHER, "zDegree": OTHER}
-    attrs, _ = ctor_attrs(chk, U.ADV, "FluxSurfaceAdvection", env)
+    attrs, a0 = ctor_attrs(chk, U.ADV, "FluxSurfaceAdvection", env)
+    local_position_decisions(chk, a0, a0.fn if hasattr(a0, "fn") else chk.func(U.ADV, "FluxSurfaceAdvection.__init__"), U.ADV,
+                             "FluxSurfaceAdvection.__init__")
     summ, _ = summary_of(chk, U.ADV, "FluxSurfaceAdvection", "step", dict(attrs), Ctx(dist_dims={0, 3}))
     req = summ["req"]
     # which index space each parameter of step must be in follows from the tables it subscripts; whether the callers hand over values of
@@ -1165,11 +1483,23 @@ def v_parallel(chk, pg_summ):
         raise AnalysisError("C05: allocation of parGradVals not found in fullSimulation.main")
     step_summ = {"params": ["f", "dt", "c", "r"], "req": {}}
     analyses = {}
+    # what the constructor keeps of the coordinate arrays (`self._rPoints = eta_vals[0]`): typed without obligations of its own; a
+    # constructor that is not followed leaves the attributes untyped (their uses are then UNDECIDED where they matter)
+    vattrs = {}
+    try:
+        cfn = method_table(chk, U.ADV, "VParallelAdvection")["__init__"][1]
+        ca = IS2(_Mute(), U.ADV, "VParallelAdvection.__init__", cfn,
+                 {"eta_vals": eta_grid_tag(), "splines": OTHER, "constants": ("constants",), "edge": OTHER}, Ctx(dist_dims=None), vattrs)
+        ca.methods = dict(I.class_methods(chk, U.ADV, "VParallelAdvection"))
+        ca.run()
+        vattrs = {k: v for k, v in vattrs.items() if I.is_arr(v) and v[2] is not None and v[2][0] == "coord"}
+    except Exception:          # noqa: BLE001
+        vattrs = {}
     for m in ("gridStep", "gridStepKeepGradient"):
         fn = vpar_entry(chk, m)
         env = {"grid": grid_param(o_grid, 2), "phi": grid_param(o_phi, 1), "parGradVals": pgv,
                "parGrad": ("obj", "ParallelGradient"), "dt": OTHER}
-        a = IS2(chk, U.ADV, f"VParallelAdvection.{m}", fn, env, ctx, {}, {"step": step_summ})
+        a = IS2(chk, U.ADV, f"VParallelAdvection.{m}", fn, env, ctx, dict(vattrs), {"step": step_summ})
         a.obj_summaries = {("ParallelGradient", "parallel_gradient"): pg_summ}
         chk.functions.add(f"{U.ADV}:VParallelAdvection.{m}")
         a.run()
@@ -1896,6 +2226,131 @@ def local_extent_dependence(chk, a, fn, rel, q):
                f"{reds}: only the part of the distributed dimension held by this process enters, and no reduction over the communicator follows; "
                f"the result {what}, so what is computed for a slice depends on which other slices share its process - the global field differs "
                "between process grids" + extra, file=rel, func=q)
+
+
+def local_position_decisions(chk, a, fn, rel, q):
+    """C-local-extent for constructors: the VALUES found at fixed positions of this process's block (`x[0]`, `x[-1]` of an array whose
+    axis engine C typed Local(d), d a dimension the layout may distribute) are compared WITH EACH OTHER and the outcome decides a
+    branch that changes data (which tables are built, how many rows they have).  What such a comparison establishes (the profile is
+    flat / monotonic / symmetric on the block) is a property of THIS block only: another decomposition cuts the same profile elsewhere
+    and takes the other branch, so the tables - and the results - depend on the process grid.
+    VIOLATED only when ALL of this is established: (1) the test reads at least two samples at different literal positions of Local(d)
+    windows of the same d (tags of engine C at the subscripts; locals followed through single plain assignments); (2) every other
+    name in the test is a numpy / math namespace or a literal tolerance: nothing global enters the decision; (3) no operand passes through a
+    reduction over the communicator or an unknown call; (4) a branch of the conditional assigns, returns or calls (messages and
+    `raise` are no effect).  A test that mixes local samples with other data is UNDECIDED; one sample alone (a position test
+    against a global bound) is no subject of this rule."""
+    def sample(e):
+        """(dimension, literal position) when `e` is `X[c]` / `X[c, ...]` with a literal c on a Local axis of a distributed dimension"""
+        if not isinstance(e, ast.Subscript):
+            return None
+        t = a.node_tags.get(id(e.value))
+        if not I.is_arr(t) or not t[1]:
+            return None
+        items = list(e.slice.elts) if isinstance(e.slice, ast.Tuple) else [e.slice]
+        for k, it in enumerate(items[:len(t[1])]):
+            w = t[1][k]
+            if isinstance(it, ast.Slice) or (isinstance(it, ast.Constant) and it.value is Ellipsis):
+                if isinstance(it, ast.Constant):
+                    return None
+                continue
+            ti = a.node_tags.get(id(it))
+            if w is not None and w[0] == "L" and isinstance(w[1], int) and a.ctx.distributed(w[1]) \
+                    and isinstance(ti, tuple) and ti and ti[0] == "lit" and isinstance(ti[1], int):
+                return (w[1], ti[1])
+        return None
+
+    single = {}
+    counts = {}
+    for st in ast.walk(fn):
+        if isinstance(st, (ast.Assign, ast.AugAssign, ast.AnnAssign, ast.For, ast.NamedExpr, ast.comprehension)):
+            tg = st.targets if isinstance(st, ast.Assign) else [st.target]
+            for t_ in tg:
+                for x in ast.walk(t_):
+                    if isinstance(x, ast.Name):
+                        counts[x.id] = counts.get(x.id, 0) + 1
+            if isinstance(st, ast.Assign) and len(st.targets) == 1 and isinstance(st.targets[0], ast.Name):
+                single[st.targets[0].id] = st.value
+    single = {k: v for k, v in single.items() if counts.get(k) == 1}
+
+    def parts(e, depth=0):
+        """(samples, foreign names, opaque?) of a scalar expression, locals written out"""
+        sm = sample(e)
+        if sm is not None:
+            return [(sm, e)], [], False
+        if isinstance(e, ast.Name):
+            if e.id in single and depth < 6:
+                return parts(single[e.id], depth + 1)
+            return [], [e.id], False
+        if isinstance(e, ast.Constant):
+            return [], [], False
+        if isinstance(e, ast.Call):
+            f = e.func
+            known = (isinstance(f, ast.Attribute) and src(f.value) in ("np", "numpy", "math") and f.attr in
+                     ("isclose", "allclose", "abs", "absolute", "fabs", "equal", "not_equal", "array_equal", "float64", "subtract")) or \
+                    (isinstance(f, ast.Name) and f.id in ("abs", "float", "bool"))
+            out = ([], [], not known)
+            for x in list(e.args) + [k.value for k in e.keywords]:
+                r = parts(x, depth)
+                out = (out[0] + r[0], out[1] + r[1], out[2] or r[2])
+            return out
+        if isinstance(e, (ast.BinOp, ast.Compare, ast.BoolOp, ast.UnaryOp)):
+            kids = [e.left, e.right] if isinstance(e, ast.BinOp) else [e.left] + list(e.comparators) if isinstance(e, ast.Compare) \
+                else list(e.values) if isinstance(e, ast.BoolOp) else [e.operand]
+            out = ([], [], False)
+            for x in kids:
+                r = parts(x, depth)
+                out = (out[0] + r[0], out[1] + r[1], out[2] or r[2])
+            return out
+        return [], [src(e)[:30]], True
+
+    def effectful(stmts):
+        for s_ in stmts:
+            for x in ast.walk(s_):
+                if isinstance(x, (ast.Assign, ast.AugAssign, ast.Return)):
+                    return True
+                if isinstance(x, ast.Expr) and isinstance(x.value, ast.Call):
+                    nm = x.value.func.attr if isinstance(x.value.func, ast.Attribute) else getattr(x.value.func, "id", "")
+                    if nm not in ("print", "my_print", "warn", "warning", "info", "debug", "log", "write", "flush"):
+                        return True
+        return False
+
+    found = False
+    for n in ast.walk(fn):
+        if not isinstance(n, (ast.If, ast.While, ast.IfExp)):
+            continue
+        smp, foreign, opaque = parts(n.test)
+        by_dim = {}
+        for (d, pos), node in smp:
+            by_dim.setdefault(d, {}).setdefault(pos, node)
+        dims = [d for d, ps in by_dim.items() if len(ps) >= 2]
+        if not dims:
+            continue
+        if isinstance(n, ast.If) and not effectful(n.body) and not effectful(n.orelse):
+            continue
+        found = True
+        d = dims[0]
+        dn = I.DIMNAMES.get(d, d)
+        nodes = [by_dim[d][p_] for p_ in sorted(by_dim[d])]
+        what = f"{q}: `{src(n.test)[:60]}` decided from this process's block of {dn}"
+        if foreign or opaque:
+            chk.ob("C-local-extent", n, what, None,
+                   f"the test compares the values at positions {sorted(by_dim[d])} of the local block of {dn} "
+                   f"({', '.join('`' + src(x)[:40] + '`' for x in nodes)}) but also reads "
+                   f"{sorted(set(foreign)) if foreign else 'the result of a call this rule does not follow'}: whether the decision is the "
+                   "same on every process is not decided", file=rel, func=q)
+            continue
+        chk.ob("C-local-extent", n, what, False,
+               f"`{src(n.test)[:80]}` compares the values at positions {sorted(by_dim[d])} of THIS process's block of {dn} "
+               f"({', '.join('`' + src(x)[:50] + '`' for x in nodes)}) with each other, nothing else enters the test, and its outcome "
+               f"decides which statements build the object's tables. What the comparison establishes holds for the block only: a profile "
+               f"whose values coincide at the two ends of one process's range of {dn} but not in between (legal: the profile is a "
+               f"function of {dn} supplied by the constants object) takes one branch there, while a process grid that cuts {dn} elsewhere "
+               "takes the other branch: the tables, and with them the results, depend on the decomposition", file=rel, func=q)
+    if not found:
+        chk.ob("C-local-extent", fn, f"{q}: decisions from values at fixed positions of the local block", True,
+               "no data-changing branch is decided by comparing values at fixed positions of this process's block with each other",
+               file=rel, func=q, nontrivial=False)
 
 
 def radius_argument(chk, analyses):
